@@ -210,8 +210,12 @@ def create_formatted_exception(
     base: type[BaseException] = Exception
 ) -> BaseException:
     try:
+        # The original class may be an ancestor of the base (a plain
+        # ``Exception``, or the base itself): the base alone then gives
+        # a class which is an instance of both.
+        bases = (base, ) if issubclass(base, cls) else (cls, base)
         try:
-            new = type(cls.__name__, (cls, base), {
+            new = type(cls.__name__, bases, {
                 '__str__': formatter,
                 '_original__str__': exc.__str__,
                 '__new__': BaseException.__new__,
